@@ -23,6 +23,108 @@ func init() {
 // registerGlobal finds the profile register by role: the package-level map
 // that NewClaims indexes with its argument.
 func registerGlobal(w *World) *ssa.Global {
+	if g, ok := regGlobalMemo[w]; ok {
+		return g
+	}
+	g := findRegisterGlobal(w)
+	regGlobalMemo[w] = g
+	if g != nil {
+		regAliasMemo[g] = mapAliases(w, g)
+	}
+	return g
+}
+
+var regGlobalMemo = map[*World]*ssa.Global{}
+
+// regAliasMemo: per register global, the parameters that always stand for
+// it (see mapAliases)
+var regAliasMemo = map[*ssa.Global]map[ssa.Value]bool{}
+
+// mapAliases: the parameters (receivers included) of in-repo functions that
+// are bound to the package-level map g at every call site: a method on a
+// named map type called only on the global, a helper that is handed the
+// global. Such a parameter reads and writes the global's map object.
+func mapAliases(w *World, g *ssa.Global) map[ssa.Value]bool {
+	out := map[ssa.Value]bool{}
+	isG := func(v ssa.Value) bool {
+		for {
+			if ct, ok := v.(*ssa.ChangeType); ok {
+				v = ct.X
+				continue
+			}
+			break
+		}
+		if u, ok := v.(*ssa.UnOp); ok && u.Op == token.MUL && u.X == ssa.Value(g) {
+			return true
+		}
+		return out[v]
+	}
+	gt := g.Type().(*types.Pointer).Elem().Underlying()
+	// call sites per static callee; functions used as values are excluded
+	sites := map[*ssa.Function][]*ssa.CallCommon{}
+	escaped := map[*ssa.Function]bool{}
+	for _, fn := range w.Funcs {
+		for _, b := range fn.Blocks {
+			for _, in := range b.Instrs {
+				var cc *ssa.CallCommon
+				if ci, ok := in.(ssa.CallInstruction); ok {
+					cc = ci.Common()
+					if c := cc.StaticCallee(); c != nil {
+						sites[c] = append(sites[c], cc)
+					}
+				}
+				for _, op := range in.Operands(nil) {
+					if f, ok := (*op).(*ssa.Function); ok && (cc == nil || *op != cc.Value) {
+						escaped[f] = true
+					}
+				}
+			}
+		}
+	}
+	for changed := true; changed; {
+		changed = false
+		for _, fn := range w.Funcs {
+			if fn.Blocks == nil || escaped[fn] || len(sites[fn]) == 0 || !w.InRepo(fn) || isExportedAPI(fn) {
+				continue
+			}
+			for i, p := range fn.Params {
+				if out[p] || !types.Identical(p.Type().Underlying(), gt) {
+					continue
+				}
+				all := true
+				for _, cc := range sites[fn] {
+					if i >= len(cc.Args) || !isG(cc.Args[i]) {
+						all = false
+					}
+				}
+				if all {
+					out[p] = true
+					changed = true
+				}
+			}
+		}
+	}
+	return out
+}
+
+// isExportedAPI: callers outside the repository may exist.
+func isExportedAPI(fn *ssa.Function) bool {
+	if fn.Object() == nil || !fn.Object().Exported() {
+		return false
+	}
+	if recv := fn.Signature.Recv(); recv != nil {
+		t := recv.Type()
+		if pt, ok := t.(*types.Pointer); ok {
+			t = pt.Elem()
+		}
+		if n, ok := t.(*types.Named); ok {
+			return n.Obj().Exported()
+		}
+	}
+	return true
+}
+
+func findRegisterGlobal(w *World) *ssa.Global {
 	fn := w.Root.Func("NewClaims")
 	if fn == nil {
 		return nil
@@ -31,6 +133,8 @@ func registerGlobal(w *World) *ssa.Global {
 	// in-repo helper) when NewClaims resolves a profile name
 	seen := map[*ssa.Function]bool{fn: true}
 	level := []*ssa.Function{fn}
+	// bound: the argument a followed call passed for a parameter
+	bound := map[ssa.Value]ssa.Value{}
 	for depth := 0; depth < 3; depth++ {
 		var next []*ssa.Function
 		for _, f := range level {
@@ -38,7 +142,17 @@ func registerGlobal(w *World) *ssa.Global {
 				for _, in := range b.Instrs {
 					switch x := in.(type) {
 					case *ssa.Lookup:
-						if ld, ok := x.X.(*ssa.UnOp); ok {
+						m := x.X
+						for i := 0; i < 4; i++ {
+							if a, ok := bound[m]; ok {
+								m = a
+							} else if ct, ok := m.(*ssa.ChangeType); ok {
+								m = ct.X
+							} else {
+								break
+							}
+						}
+						if ld, ok := m.(*ssa.UnOp); ok {
 							if g, ok := ld.X.(*ssa.Global); ok {
 								if _, isMap := g.Type().(*types.Pointer).Elem().Underlying().(*types.Map); isMap {
 									return g
@@ -49,6 +163,23 @@ func registerGlobal(w *World) *ssa.Global {
 						if c := x.Call.StaticCallee(); c != nil && !seen[c] && c.Blocks != nil && w.InRepo(c) {
 							seen[c] = true
 							next = append(next, c)
+							for i, p := range c.Params {
+								if i < len(x.Call.Args) {
+									bound[p] = x.Call.Args[i]
+								}
+							}
+						}
+						// a call through a package-level function variable that only
+						// its initialiser writes
+						if ld, ok := x.Call.Value.(*ssa.UnOp); ok && x.Call.StaticCallee() == nil {
+							if g, ok := ld.X.(*ssa.Global); ok && w.readOnlyOutsideInit(g) {
+								for c := range w.tableFuncs(g) {
+									if !seen[c] && c.Blocks != nil {
+										seen[c] = true
+										next = append(next, c)
+									}
+								}
+							}
 						}
 					}
 				}
@@ -133,6 +264,12 @@ func checkC07(w *World, r *Recorder) propInfo {
 	// Evidence come from DecodeClaimsFromCBOR applied to the message's payload
 	// on every successful path (never from an object that was attached before)
 	c20Payload(w, r, "C07-P7")
+	// P8: a token is validated under the rules of the profile it declares: the
+	// decode-and-validate entry points call Validate() on the very object the
+	// dispatcher produced (C08-G1 for those gates)
+	importRules(w, r, checkC08, "C07-P8", func(o *Oblig) bool {
+		return o.Rule == "C08-G1" && strings.Contains(o.Construct, "DecodeAndValidate")
+	})
 	r.Floor("C07-P1", 1)
 	r.Floor("C07-P2", 2)
 	r.Floor("C07-P3", 1)
@@ -509,20 +646,33 @@ type jsonDispatch struct {
 	getClaims *ssa.Call
 	recv      ssa.Value
 	leaves    []jsonLeaf
-	// sel: the function in which the selection is made — the decoder itself,
-	// or a helper whose first result (on its error-free returns) is the
-	// profile GetClaims() is invoked on
-	sel *ssa.Function
+	// helperResults: per function, the first results of the selection helpers
+	// it calls (error-checked): "nothing matched" can be a nil test on them
+	helperResults map[*ssa.Function][]ssa.Value
 }
 
 type jsonLeaf struct {
 	val  ssa.Value
-	pred *ssa.BasicBlock // predecessor block of the φ edge (nil: direct)
+	pred *ssa.BasicBlock // predecessor block of the φ edge, or the returning block of a helper (nil: direct)
 	kind string          // nil | iteration | default | other
+	fn   *ssa.Function   // the function the definition lives in: the decoder or a (nested) selection helper
+}
+
+// iterFns: the functions in which an entry of the register loop is selected.
+func (d *jsonDispatch) iterFns() []*ssa.Function {
+	var out []*ssa.Function
+	seen := map[*ssa.Function]bool{}
+	for _, l := range d.leaves {
+		if l.kind == "iteration" && !seen[l.fn] {
+			seen[l.fn] = true
+			out = append(out, l.fn)
+		}
+	}
+	return out
 }
 
 func analyseJSONDispatch(w *World, fn *ssa.Function, reg *ssa.Global) (*jsonDispatch, string) {
-	d := &jsonDispatch{fn: fn}
+	d := &jsonDispatch{fn: fn, helperResults: map[*ssa.Function][]ssa.Value{}}
 	// the GetClaims call whose result is returned
 	for _, b := range fn.Blocks {
 		for _, in := range b.Instrs {
@@ -544,8 +694,12 @@ func analyseJSONDispatch(w *World, fn *ssa.Function, reg *ssa.Global) (*jsonDisp
 	}
 	d.recv = d.getClaims.Call.Value
 	seen := map[ssa.Value]bool{}
-	var walk func(v ssa.Value, pred *ssa.BasicBlock, nonNil bool)
-	walk = func(v ssa.Value, pred *ssa.BasicBlock, nonNil bool) {
+	why := ""
+	// walk: the reaching definitions of v in cur; pred is the φ edge's
+	// predecessor (or a helper's returning block), at the block where the
+	// value is used when there is no edge
+	var walk func(cur *ssa.Function, v ssa.Value, pred, at *ssa.BasicBlock, nonNil bool, depth int)
+	walk = func(cur *ssa.Function, v ssa.Value, pred, at *ssa.BasicBlock, nonNil bool, depth int) {
 		if phi, ok := v.(*ssa.Phi); ok {
 			if seen[phi] {
 				return
@@ -557,11 +711,43 @@ func analyseJSONDispatch(w *World, fn *ssa.Function, reg *ssa.Global) (*jsonDisp
 				}
 				p := phi.Block().Preds[i]
 				nn := nonNil || knownNonNilAt(e, p) || nonNilEdgeInto(e, p, phi.Block())
-				walk(e, p, nn)
+				walk(cur, e, p, p, nn, depth)
 			}
 			return
 		}
-		leaf := jsonLeaf{val: v, pred: pred, kind: "other"}
+		// the first result of a selection helper func(…) (profile, error),
+		// used where its error is known to be nil: its error-free returns
+		if ex, ok := stripIface(v).(*ssa.Extract); ok && ex.Index == 0 && depth < 4 {
+			if c, ok := ex.Tuple.(*ssa.Call); ok {
+				if h := c.Call.StaticCallee(); h != nil && w.InRepo(h) && h.Blocks != nil && h.Signature.Results().Len() == 2 && isErrorType(h.Signature.Results().At(1).Type()) {
+					var herr ssa.Value
+					for _, ref := range *c.Referrers() {
+						if e2, ok := ref.(*ssa.Extract); ok && e2.Index == 1 {
+							herr = e2
+						}
+					}
+					if herr == nil || at == nil || !knownNilAt(herr, at) {
+						why = "the selection helper's error is not checked before its result is used"
+						return
+					}
+					if seen[ex] {
+						return
+					}
+					seen[ex] = true
+					d.helperResults[cur] = append(d.helperResults[cur], ex)
+					for _, b := range h.Blocks {
+						ret, ok := b.Instrs[len(b.Instrs)-1].(*ssa.Return)
+						if !ok || !isNilConst(ret.Results[1]) && (definitelyNonNilErr(ret.Results[1]) || knownNonNilAt(ret.Results[1], b)) {
+							continue // failing return: its first result is not used
+						}
+						rv := ret.Results[0]
+						walk(h, rv, b, b, nonNil || knownNonNilAt(rv, b), depth+1)
+					}
+					return
+				}
+			}
+		}
+		leaf := jsonLeaf{val: v, pred: pred, kind: "other", fn: cur}
 		switch {
 		case isNilConst(v):
 			if nonNil {
@@ -569,41 +755,16 @@ func analyseJSONDispatch(w *World, fn *ssa.Function, reg *ssa.Global) (*jsonDisp
 			}
 			leaf.kind = "nil"
 		default:
-			if src, key := registerSource(v, reg); src != "" {
+			if src, _ := registerSource(v, reg); src != "" {
 				leaf.kind = src
-				_ = key
 			}
 		}
 		d.leaves = append(d.leaves, leaf)
 	}
-	d.sel = fn
-	if ex, ok := stripIface(d.recv).(*ssa.Extract); ok && ex.Index == 0 {
-		if c, ok := ex.Tuple.(*ssa.Call); ok {
-			if h := c.Call.StaticCallee(); h != nil && w.InRepo(h) && h.Blocks != nil && h.Signature.Results().Len() == 2 {
-				// the helper's error must be nil where GetClaims() is invoked
-				var herr ssa.Value
-				for _, ref := range *c.Referrers() {
-					if e2, ok := ref.(*ssa.Extract); ok && e2.Index == 1 {
-						herr = e2
-					}
-				}
-				if herr == nil || !knownNilAt(herr, d.getClaims.Block()) {
-					return nil, "the selection helper's error is not checked before its result is used"
-				}
-				d.sel = h
-				for _, b := range h.Blocks {
-					ret, ok := b.Instrs[len(b.Instrs)-1].(*ssa.Return)
-					if !ok || !isNilConst(ret.Results[1]) && (definitelyNonNilErr(ret.Results[1]) || knownNonNilAt(ret.Results[1], b)) {
-						continue // failing return: its first result is not used
-					}
-					v := ret.Results[0]
-					walk(v, b, knownNonNilAt(v, b))
-				}
-				return d, ""
-			}
-		}
+	walk(fn, d.recv, nil, d.getClaims.Block(), knownNonNilAt(d.recv, d.getClaims.Block()), 0)
+	if why != "" {
+		return nil, why
 	}
-	walk(d.recv, nil, knownNonNilAt(d.recv, d.getClaims.Block()))
 	return d, ""
 }
 
@@ -659,7 +820,20 @@ func registerSource(v ssa.Value, reg *ssa.Global) (string, string) {
 			case *ssa.Call:
 				// a lookup helper: func(name) (…entry/profile…, bool) whose result
 				// comes from register[name]; called with the constant ""
-				if h := t.Call.StaticCallee(); h != nil && x.Index == 0 {
+				h := t.Call.StaticCallee()
+				if h == nil {
+					// a call through a package-level function variable bound once
+					if ld, ok := t.Call.Value.(*ssa.UnOp); ok {
+						if g, ok := ld.X.(*ssa.Global); ok {
+							if fs := registerFuncVar(g); len(fs) == 1 {
+								for f := range fs {
+									h = f
+								}
+							}
+						}
+					}
+				}
+				if h != nil && x.Index == 0 {
 					if pi := registerLookupHelper(h, reg); pi >= 0 && pi < len(t.Call.Args) {
 						if c, ok := t.Call.Args[pi].(*ssa.Const); ok && c.Value != nil && c.Value.Kind() == constant.String && constStringVal(c) == "" {
 							return "default", ""
@@ -783,6 +957,16 @@ func registerSourceNoHelper(v ssa.Value, lk *ssa.Lookup) (bool, string) {
 }
 
 func loadsGlobal(v ssa.Value, g *ssa.Global) bool {
+	for {
+		if ct, ok := v.(*ssa.ChangeType); ok {
+			v = ct.X
+			continue
+		}
+		break
+	}
+	if regAliasMemo[g][v] {
+		return true // a parameter bound to the register at every call site
+	}
 	u, ok := v.(*ssa.UnOp)
 	return ok && u.Op == token.MUL && u.X == ssa.Value(g)
 }
@@ -813,21 +997,27 @@ func c07JSONDispatch(w *World, r *Recorder, rule string) {
 		}
 		switch l.kind {
 		case "nil":
-			ok := knownNonNilAt(d.recv, d.getClaims.Block()) && d.sel == fn
+			ok := knownNonNilAt(d.recv, d.getClaims.Block()) && l.fn == fn
 			r.Check(ok, rule, key, w.InstrPos(d.getClaims), "a nil selection cannot reach GetClaims()", "GetClaims() can be invoked on a nil profile (no profile matched)")
 		case "iteration":
-			ok, why := iterationGuarded(d.sel, l, reg)
+			ok, why := iterationGuarded(l.fn, l, reg)
 			r.Check(ok, rule, fmt.Sprintf("%s/%d", key, i), pos, "selection inside the register loop only under member-present ∧ value == entry's GetName()", why)
 		case "default":
 			hasDefault = true
-			ok := l.pred != nil && foundPhi != nil && (knownNilAt(foundPhi, l.pred) || knownNilAt(d.recv, l.pred))
+			ok := l.pred != nil && l.fn == fn && foundPhi != nil && (knownNilAt(foundPhi, l.pred) || knownNilAt(d.recv, l.pred))
 			if !ok && l.pred != nil {
 				// the default may be assigned to a later φ; accept a guard on any φ that feeds the receiver
-				for _, b := range d.sel.Blocks {
+				for _, b := range l.fn.Blocks {
 					for _, in := range b.Instrs {
 						if phi, isPhi := in.(*ssa.Phi); isPhi && types.Identical(phi.Type(), d.recv.Type()) && knownNilAt(phi, l.pred) {
 							ok = true
 						}
+					}
+				}
+				// or on the result of the helper that looked for a match
+				for _, hv := range d.helperResults[l.fn] {
+					if knownNilAt(hv, l.pred) {
+						ok = true
 					}
 				}
 			}
@@ -1193,7 +1383,11 @@ func c16Conflict(w *World, r *Recorder, reg *ssa.Global) {
 	// a second match (found != nil) either has the same name or returns an error:
 	// there is an If on GetName() != GetName() whose 'different' edge leads to a non-nil error return
 	ok := false
-	for _, b := range d.sel.Blocks {
+	var selBlocks []*ssa.BasicBlock
+	for _, f := range d.iterFns() {
+		selBlocks = append(selBlocks, f.Blocks...)
+	}
+	for _, b := range selBlocks {
 		ifi, isIf := b.Instrs[len(b.Instrs)-1].(*ssa.If)
 		if !isIf {
 			continue
@@ -1220,7 +1414,7 @@ func c16Conflict(w *World, r *Recorder, reg *ssa.Global) {
 	}
 	if !ok {
 		// the && form: names-differ feeds a φ (other edges constant false) that an If tests
-		for _, b := range d.sel.Blocks {
+		for _, b := range selBlocks {
 			for _, in := range b.Instrs {
 				bo, isBin := in.(*ssa.BinOp)
 				if !isBin || bo.Op != token.NEQ {
@@ -1358,4 +1552,44 @@ func c16StaleLoopPointers(w *World, r *Recorder) {
 	if bad == 0 {
 		r.Prove("C16-N5", "no-stale-loop-pointers", "-", fmt.Sprintf("%d functions reachable from registration and dispatch keep no pointer to a variable that a later iteration overwrites", n), true)
 	}
+}
+
+// registerFuncVar: the functions the package initialiser stores into the
+// package-level function variable g (a World-free version of tableFuncs for
+// rules that only have SSA values at hand).
+func registerFuncVar(g *ssa.Global) map[*ssa.Function]bool {
+	if g.Pkg == nil {
+		return nil
+	}
+	init := g.Pkg.Func("init")
+	if init == nil {
+		return nil
+	}
+	out := map[*ssa.Function]bool{}
+	for _, b := range init.Blocks {
+		for _, in := range b.Instrs {
+			if st, ok := in.(*ssa.Store); ok && st.Addr == ssa.Value(g) {
+				f, isFn := st.Val.(*ssa.Function)
+				if !isFn {
+					return nil
+				}
+				out[f] = true
+			}
+		}
+	}
+	// written anywhere else?
+	for _, m := range g.Pkg.Members {
+		fn, ok := m.(*ssa.Function)
+		if !ok || fn == init {
+			continue
+		}
+		for _, b := range fn.Blocks {
+			for _, in := range b.Instrs {
+				if st, ok := in.(*ssa.Store); ok && st.Addr == ssa.Value(g) {
+					return nil
+				}
+			}
+		}
+	}
+	return out
 }
